@@ -62,11 +62,16 @@ AUDIT = {
     "u32::rem_euclid": (("u32", "u32"), "{0}.rem_euclid({1})", lambda a, b: b != 0, lambda a, b: a % b),
 }
 
+AUDIT["<OrderingasPartialEq>::eq"] = (("ord", "ord"), "(({0} == {1}) as i128)", lambda a, b: True, lambda a, b: int(a == b))
+ORD = {-1: "core::cmp::Ordering::Less", 0: "core::cmp::Ordering::Equal", 1: "core::cmp::Ordering::Greater"}
+
 RANGES = {"u8": (0, 255), "i8": (-128, 127), "u16": (0, 65535), "i16": I16, "u32": (0, 2**32 - 1), "i32": (-(2**31), 2**31 - 1),
           "u64": (0, 2**64 - 1), "i64": I64, "i128": I128}
 
 
 def grid(ty):
+    if ty == "ord":
+        return [-1, 0, 1]
     lo, hi = RANGES[ty]
     base = {lo, lo + 1, lo + 2, hi, hi - 1, hi - 2, 0, 1, 2, 3, 5, 7, 10, 100, 3155760000000000000, 3155760000000000001,
             3155759999999999999, 86400000000000, 2**63, 2**63 - 1, 2**31, 2**15, 255, 127, 128}
@@ -101,6 +106,9 @@ def main():
                 continue
             lits = []
             for v, t in zip(args, tys):
+                if t == "ord":
+                    lits.append(ORD[v])
+                    continue
                 lo, hi = RANGES[t]
                 lits.append(f"({t}::MIN)" if v == lo and lo < 0 else f"({v}{t})")
             idx = len(cases)
